@@ -738,6 +738,49 @@ func c15Case(r *obs.Run, i int) {
 		}
 		r.Count("planted_recovered", 1)
 	}
+	// the caller writes another query into the same sequence object (same length, one fresh reverse-complemented copy of
+	// a target window in it) and searches the complement strand again with the same aligner: nothing of the first query
+	// may be remembered
+	if !pl.Self && pl.TOffset == 0 && pl.QOffset == 0 && !unselective && rng.Intn(4) == 0 {
+		L := 2 * pl.MinHitLen
+		if L+10 < pl.TLen/2 && L+10 < pl.QLen/2 {
+			Q2 := c14Rand(rng, pl.QLen)
+			a0, b0 := rng.Intn(pl.TLen-L), rng.Intn(pl.QLen-L)
+			copy(Q2[b0:], c15RevComp(T[a0:a0+L]))
+			nl := letters(Q2)
+			copy(qs.Seq, nl)
+			w["second_query_written_into_the_same_object"] = string(Q2)
+			hits2, err := pa.Align(true)
+			if err != nil {
+				fail("pals-error", "Align(complement=true) after the caller rewrote the query in place: "+err.Error())
+				return
+			}
+			RC2 := c15RevComp(Q2)
+			found := false
+			for _, h := range hits2 {
+				desc := fmt.Sprintf("after the caller rewrote the query in place: hit A[%d,%d) B[%d,%d) score %d error %.4f (complement=true)", h.Abpos, h.Aepos, h.Bbpos, h.Bepos, h.Score, h.Error)
+				if h.Abpos < 0 || h.Aepos > pl.TLen || h.Bbpos < 0 || h.Bepos > pl.QLen || h.Abpos > h.Aepos || h.Bbpos > h.Bepos {
+					fail("hit-out-of-bounds", desc+" lies outside the sequences")
+					return
+				}
+				if opt, _ := c15NW(T[h.Abpos:h.Aepos], RC2[h.Bbpos:h.Bepos]); h.Score > opt {
+					fail("hit-score-above-optimum", desc+fmt.Sprintf(": reported score exceeds the optimal global alignment score %d of the two regions of the sequences as they are now", opt))
+					return
+				}
+				oa := minInt(h.Aepos, a0+L) - maxInt(h.Abpos, a0)
+				ob := minInt(h.Bepos, pl.QLen-b0) - maxInt(h.Bbpos, pl.QLen-b0-L)
+				if 10*oa >= 8*L && 10*ob >= 8*L {
+					found = true
+				}
+			}
+			if !found {
+				w["hits_complement_second_query"] = fmt.Sprint(hits2)
+				fail("planted-repeat-missed", fmt.Sprintf("after the caller rewrote the query in place, the reverse-complemented copy of target[%d,%d) at query[%d,%d) is not covered to 80%% by any hit of a second complement-strand search with the same aligner", a0, a0+L, b0, b0+L))
+				return
+			}
+			r.Count("second_searches_after_the_query_was_rewritten_in_place", 1)
+		}
+	}
 	r.Note(fmt.Sprintf("%+v/%x", pl, hashBytes(T)), nh > 0)
 	if r.WantSample() {
 		r.Sample(map[string]interface{}{"plan": pl, "filter_params": *pa.FilterParams, "hits_forward": fmt.Sprint(hits[0]), "hits_complement": fmt.Sprint(hits[1])})
